@@ -1183,8 +1183,14 @@ pub(crate) fn verify_mmr_proof<'a, T: Iterator<Item = &'a HeaderView>>(
         return Err(StatusCode::InvalidProof.with_context(errmsg));
     };
     let parent_chain_root = last_header.parent_chain_root();
+    let end_number: BlockNumber = parent_chain_root.end_number().unpack();
+    // The size of the MMR should be able to be represented as an `u64`.
+    if end_number >= BlockNumber::MAX / 2 {
+        let errmsg = format!("the end number ({}) of the chain root is too big", end_number);
+        return Err(StatusCode::InvalidProof.with_context(errmsg));
+    }
     let proof: MMRProof = {
-        let mmr_size = leaf_index_to_mmr_size(parent_chain_root.end_number().unpack());
+        let mmr_size = leaf_index_to_mmr_size(end_number);
         let proof = raw_proof
             .iter()
             .map(|header_digest| header_digest.to_entity())
@@ -1196,6 +1202,9 @@ pub(crate) fn verify_mmr_proof<'a, T: Iterator<Item = &'a HeaderView>>(
         let res = headers
             .map(|header| {
                 let index = header.number();
+                if index > end_number {
+                    return Err(format!("block#{} is not in the chain root", index));
+                }
                 let position = leaf_index_to_pos(index);
                 let digest = header.digest();
                 digest.verify()?;
